@@ -63,7 +63,81 @@ fn sync_dir(src: &Path, dst: &Path) {
 struct Corpus {
     name: String,
     seed: u64,
+    /// thrift: generator profile; proto: "proto2" | "proto3"
     profile: String,
+    proto: bool,
+}
+
+#[allow(clippy::too_many_arguments)]
+fn proto_corpus(root: &Path, cases: &Path, pbuild: &Path, c: &Corpus, members: &mut Vec<String>, built: &mut Vec<(String, String, String)>, rejected: &mut Vec<String>) {
+    let proto3 = c.profile == "proto3";
+    let schema = refmodel::pb::generate(c.seed, proto3, 4);
+    let cdir = cases.join(&c.name);
+    let idl_dir = cdir.join("idl");
+    write_if_changed(&idl_dir.join("c0.proto"), &schema.render());
+    let mut reg = String::from("pub fn registry() -> Vec<gencase::pbchecks::PTypeOps> {\n    vec![\n");
+    for m in 0..schema.msgs.len() {
+        reg.push_str(&format!("        gencase::pbchecks::pops::<crate::{}>({}),\n", schema.rust_path("pgen", "c0", m), m));
+    }
+    reg.push_str("    ]\n}\n");
+    write_if_changed(&cdir.join("registry.rs"), &reg);
+    // the fixed quick corpus p3 is additionally built against pilota with pb-encode-default-value
+    let configs: Vec<&str> = if c.name == "p3" { vec!["single", "split", "encdef"] } else { vec!["single", "split"] };
+    for config in configs {
+        let kdir = cdir.join(config);
+        let gen_dir = kdir.join("gen");
+        let new_dir = kdir.join("gen.new");
+        let _ = std::fs::remove_dir_all(&new_dir);
+        let _ = std::fs::create_dir_all(&new_dir);
+        let _ = std::fs::create_dir_all(&gen_dir);
+        let mut cmd = Command::new(pbuild);
+        cmd.arg("--lang").arg("proto").arg("--out").arg(new_dir.join("pgen.rs")).arg("--include").arg(&idl_dir);
+        if config == "split" {
+            cmd.arg("--split");
+        }
+        cmd.arg(idl_dir.join("c0.proto"));
+        match cmd.output() {
+            Ok(o) if o.status.success() => {
+                sync_dir(&new_dir, &gen_dir);
+                let _ = std::fs::remove_dir_all(&new_dir);
+            }
+            Ok(o) => {
+                eprintln!("pbuild failed for {} {}: {}", c.name, config, String::from_utf8_lossy(&o.stderr).chars().take(400).collect::<String>());
+                rejected.push(format!("{}/{}", c.name, config));
+                continue;
+            }
+            Err(e) => {
+                eprintln!("cannot run pbuild: {}", e);
+                std::process::exit(3);
+            }
+        }
+        let pkg = format!("case_{}_{}", c.name, config);
+        let feat = if config == "encdef" { ", features = [\"pb-encode-default-value\"]" } else { "" };
+        write_if_changed(
+            &kdir.join("Cargo.toml"),
+            &format!(
+                "[package]\nname = \"{}\"\nedition = \"2024\"\nversion = \"0.0.0\"\n\n[dependencies]\npilota = {{ path = \"/repo/pilota\"{} }}\ngencase = {{ path = \"{}/harness/gencase\" }}\nmonitors = {{ path = \"{}/harness/monitors\" }}\n",
+                pkg,
+                feat,
+                root.display(),
+                root.display()
+            ),
+        );
+        write_if_changed(
+            &kdir.join("src/main.rs"),
+            &format!(
+                "#![allow(warnings)]\n#[global_allocator]\nstatic ALLOC: monitors::alloc::Counting = monitors::alloc::Counting;\n\ninclude!(\"{}\");\ninclude!(\"{}\");\n\nfn main() {{\n    gencase::pbchecks::pmain(registry(), {}, {}, \"{}\", \"{}\");\n}}\n",
+                gen_dir.join("pgen.rs").display(),
+                cdir.join("registry.rs").display(),
+                c.seed,
+                proto3,
+                config,
+                c.name
+            ),
+        );
+        members.push(format!("{}/{}", c.name, config));
+        built.push((c.name.clone(), config.to_string(), pkg));
+    }
 }
 
 fn main() {
@@ -93,8 +167,10 @@ fn main() {
     // the every-change check does not recompile generated code for every seed);
     // thorough: + corpora derived from the seed
     let mut corpora = vec![
-        Corpus { name: "q0".into(), seed: 0x51, profile: "default".into() },
-        Corpus { name: "qd".into(), seed: 0x52, profile: "defaults".into() },
+        Corpus { name: "q0".into(), seed: 0x51, profile: "default".into(), proto: false },
+        Corpus { name: "qd".into(), seed: 0x52, profile: "defaults".into(), proto: false },
+        Corpus { name: "p3".into(), seed: 0x53, profile: "proto3".into(), proto: true },
+        Corpus { name: "p2".into(), seed: 0x54, profile: "proto2".into(), proto: true },
     ];
     if tier == "thorough" {
         let n: u64 = std::env::var("VERIF_CORPORA").ok().and_then(|s| s.parse().ok()).unwrap_or(10);
@@ -105,7 +181,11 @@ fn main() {
                 2 => "small",
                 _ => "default",
             };
-            corpora.push(Corpus { name: format!("t{}_{}", seed % 1000, k), seed: seed.wrapping_mul(1000).wrapping_add(k), profile: profile.into() });
+            corpora.push(Corpus { name: format!("t{}_{}", seed % 1000, k), seed: seed.wrapping_mul(1000).wrapping_add(k), profile: profile.into(), proto: false });
+        }
+        let np: u64 = std::env::var("VERIF_PROTO_CORPORA").ok().and_then(|s| s.parse().ok()).unwrap_or(6);
+        for k in 0..np {
+            corpora.push(Corpus { name: format!("u{}_{}", seed % 1000, k), seed: seed.wrapping_mul(2000).wrapping_add(k), profile: if k % 2 == 0 { "proto3" } else { "proto2" }.into(), proto: true });
         }
     }
 
@@ -113,6 +193,10 @@ fn main() {
     let mut built: Vec<(String, String, String)> = vec![];
     let mut rejected: Vec<String> = vec![];
     for c in &corpora {
+        if c.proto {
+            proto_corpus(&root, &cases, &pbuild, c, &mut members, &mut built, &mut rejected);
+            continue;
+        }
         let schema = generate(c.seed, &GenProfile::named(&c.profile));
         let cdir = cases.join(&c.name);
         let idl_dir = cdir.join("idl");
@@ -204,14 +288,24 @@ fn main() {
     if !cases.join("Cargo.lock").exists() {
         let _ = std::fs::write(cases.join("Cargo.lock"), lock);
     }
-    // build, dropping packages that do not compile (that is C14's observation, not ours)
+    // build, dropping packages that do not compile (that is C14's observation, not ours).
+    // Crates that enable a pilota feature are built by a separate cargo invocation so that
+    // feature unification does not leak the feature into the other crates.
+    for group in 0..2 {
     let mut attempts = 0;
     loop {
         attempts += 1;
         let mut cmd = Command::new("cargo");
         cmd.current_dir(&cases).arg("build").arg("--offline");
-        for (_, _, pkg) in &built {
-            cmd.arg("-p").arg(pkg);
+        let mut any = false;
+        for (_, cfg, pkg) in &built {
+            if cfg.contains("encdef") == (group == 1) {
+                cmd.arg("-p").arg(pkg);
+                any = true;
+            }
+        }
+        if !any {
+            break;
         }
         let out = cmd.output().expect("cargo");
         if out.status.success() {
@@ -235,6 +329,7 @@ fn main() {
             eprintln!("{}", err.chars().rev().take(3000).collect::<String>().chars().rev().collect::<String>());
             std::process::exit(3);
         }
+    }
     }
     for (c, k, pkg) in &built {
         println!("{} {} {}/target/debug/{}", c, k, root.display(), pkg);
